@@ -164,6 +164,7 @@ structure State where
   kind : Strategy
   listing : List PPath        -- ignored set (Git, Hg) / tracked set (Jujutsu, Pijul)
   submodules : List PPath     -- Git only
+  deriving DecidableEq, Repr
 
 /-- `Strategy(root)`: parse the raw outputs of the commands run in `root`.
     `raw1` = the listing, `raw2` = `git config -z --file .gitmodules --get-regexp '\.path$'`. -/
